@@ -244,3 +244,10 @@ def check(ctx):
             return ok
     C13.check(OnlyDealloc(ctx, "R14.6"))
     ctx.floor("R14.6", 2)
+    # R14.9 'every handle dereferences to the value written at creation': the constructors (OgreArc::new_with / new_with_clones, OgreUnique::new, the pool's
+    # alloc_with*) invoke the setter they were given on every path that answers a handle (shared with C01 R01.9)
+    class OnlyAlloc(util.PrefixedCtx):
+        def ob(self, rule, key, ok, site="", detail="", nontrivial=True, undecided=False):
+            if "ogre_alloc" in key or "instances" in key: return super().ob(rule, key, ok, site, detail, nontrivial, undecided)
+            return ok
+    importlib.import_module("props.C01").check_setters_consumed(OnlyAlloc(ctx, "R14.9"), "R01.9")
